@@ -394,3 +394,69 @@ func VerifC05_RefCountedStep() {
 		verifrt.Assert(verifrt.And(*l == *r, verifrt.And(*l > 0, *l == want)), "C05 both sides hold the same positive expected count")
 	})
 }
+
+// VerifC05_LinksThroughEntityPersistence: the emp's links to depts are given
+// as a field of the entity (PersistContext.SetLinkedIds). Create with a list,
+// then an update (full or restricted by a field checker that selects the link
+// field or not) with another list; lists draw from two existing depts and a
+// missing one, in any order with repeats. Accepted iff every target exists (and
+// the field is written at all); afterwards both sides hold exactly the
+// requested set; a rejected operation changes nothing.
+func VerifC05_LinksThroughEntityPersistence() {
+	env := verifC05Env()
+	defer env.close()
+	env.createDepts(vDeptIds...)
+	univ := []string{vDeptIds[0], vDeptIds[1], "missing"}
+	symList := func(tag string) ([]string, [2]bool, bool) {
+		n := verifrt.Choose(tag+".len", 3)
+		var out []string
+		var want [2]bool
+		bad := false
+		for i := 0; i < n; i++ {
+			k := verifrt.Choose(tag+".id", 3)
+			out = append(out, univ[k])
+			if k < 2 {
+				want[k] = true
+			} else {
+				bad = true
+			}
+		}
+		return out, want, bad
+	}
+	sp := &vLinkSpec{dept: [2]bool{true, true}}
+	sp.emp[0] = true
+	l1, w1, bad1 := symList("create")
+	err := env.update(func(ctx MutateContext) error {
+		return env.emp.Create(ctx, &vEmp{Id: vIds[0], Name: "Na", DeptIds: &l1})
+	})
+	verifrt.Assert((err == nil) == !bad1, "C05 creating an entity with a link list is accepted iff every target exists")
+	if err != nil {
+		env.view(func(tx *bbolt.Tx) {
+			verifrt.Assert(env.emp.GetEntityBucket(tx, []byte(vIds[0])) == nil, "C05 a rejected create leaves nothing")
+			for d := range vDeptIds {
+				verifrt.Assert(!verifRawLinked(env.dept.GetEntityBucket(tx, []byte(vDeptIds[d])), vFMembers, vIds[0]), "C05 a rejected create leaves no half link")
+			}
+		})
+		return
+	}
+	sp.link[0] = w1
+	env.checkLinks(sp, "C05 after create with a link list")
+	l2, w2, bad2 := symList("update")
+	var checker FieldChecker
+	written := true
+	switch verifrt.Choose("checker", 3) {
+	case 1:
+		checker = MapFieldChecker{vFDepts: struct{}{}}
+	case 2:
+		checker = MapFieldChecker{vFName: struct{}{}}
+		written = false
+	}
+	err = env.update(func(ctx MutateContext) error {
+		return env.emp.Update(ctx, &vEmp{Id: vIds[0], Name: "Na", DeptIds: &l2}, checker)
+	})
+	verifrt.Assert((err == nil) == (!written || !bad2), "C05 updating the link list is accepted iff it is not written or every target exists")
+	if err == nil && written {
+		sp.link[0] = w2
+	}
+	env.checkLinks(sp, "C05 after update of the link list")
+}
